@@ -405,6 +405,13 @@ func buildApp(cfg int, st *runState) *fiber.App {
 		})
 	}
 
+	// --- route-shape family (shape.go): a small application of its own per shape ---------------
+	if shapeIdx >= 0 {
+		registerShape(app, st, &shapes[shapeIdx])
+		app.Handler()
+		return app
+	}
+
 	// --- probe routes: observe, then answer ---------------------------------
 	probe := func(name string) fiber.Handler {
 		return func(c fiber.Ctx) error {
